@@ -11,6 +11,7 @@ import GormModel.Lemmas.TxLeak
 import GormModel.Lemmas.TxForms
 import GormModel.Gen.C04bSites
 import GormModel.Gen.BeginFacts
+import GormModel.Gen.EnclFacts
 namespace Gorm
 open Gorm.Tx
 
@@ -531,6 +532,84 @@ example :
     (formBlock siteSel C04_cfg0 (fun _ => false)
         [{ stmts := [.exec [.nop] 9, .exec [.ins 7] 1], must := true }, { stmts := [.exec [.del 3, .del 4] 2], must := true }]
         .retNil 5 { committed := [3, 4, 5] }).1.committed = [5, 7] := by
+  decide +kernel
+
+/-! ### write forms that are THEMSELVES transaction blocks (round 6): `CreateInBatches`, `Create` under `CreateBatchSize` -/
+
+/-- the wrap decision of finisher_api.go `DB.CreateInBatches` as the model uses it (tied to the code by the regenerated
+    `Gen.cibWrapDecision`, theorem `C04_batches_wrap_decision`): the batches go through `tx.Transaction(callFc)` unless
+    `tx.SkipDefaultTransaction || reflectLen <= batchSize` — in particular NOT depending on whether the handle is
+    already inside a transaction -/
+def c04CibWraps (skip : Bool) (len bs : Nat) : Bool := !(skip || decide (len ≤ bs))
+
+/-- `callFc`: one multi-row INSERT per batch through call site `site`; the first failing batch ends it with its error -/
+def c04BatchOps (site : Nat) (batches : List (List Nat)) : List FormOp :=
+  batches.map (fun ids => { stmts := [FStmt.exec (ids.map Write.ins) site], must := true })
+
+/-- `h.CreateInBatches(rows, bs)` through a transaction handle `h`: the nested block of Model/TxForms.lean `formNested`
+    (SAVEPOINT … ROLLBACK TO on failure, `callFc` returns nil after the last batch) or the batches directly on the handle -/
+def c04CreateInBatchesTx (sel : Nat → PoolSel) (o : Oracle) (h : Handle) (skip : Bool) (len bs site : Nat)
+    (batches : List (List Nat)) (db : DB) : DB × Res :=
+  if c04CibWraps skip len bs = true then
+    ((formNested sel o h (c04BatchOps site batches) .retNil 0 db).1, (formNested sel o h (c04BatchOps site batches) .retNil 0 db).2.2)
+  else runForms sel o h (c04BatchOps site batches) db
+
+/-- REGENERATED from finisher_api.go: exactly one `if` hands `callFc` on; the wrapper is skipped under
+    `tx.SkipDefaultTransaction || reflectLen <= batchSize` and under nothing else; the other branch is `tx.Transaction(callFc)`;
+    `Create` delegates to `CreateInBatches` exactly under `CreateBatchSize > 0`; and `Transaction` issues its SAVEPOINT under
+    "pool is a TxCommitter ∧ nested transactions enabled" with the ROLLBACK TO in the deferred closure -/
+theorem C04_batches_wrap_decision :
+    Gen.cibWrapDecision = [("tx.SkipDefaultTransaction || reflectLen <= batchSize",
+        ["callFc(tx.Session(&Session{}))"], ["tx.Transaction(callFc)"])] ∧
+    Gen.createDelegation = [(["db.CreateBatchSize > 0"], "db.CreateInBatches(value, db.CreateBatchSize)")] ∧
+    Gen.txBlockCalls.filter (fun c => c.1 == "db.SavePoint" || c.1 == "db.RollbackTo") =
+      [("db.SavePoint", ["ok", "committer != nil", "!db.DisableNestedTransaction"], false), ("db.RollbackTo", [], true)] := by
+  decide
+
+theorem c04_sitesOf_batchOps (site : Nat) (batches : List (List Nat)) :
+    ∀ s ∈ sitesOf (c04BatchOps site batches), s = site := by
+  induction batches with
+  | nil => intro s hs; simp [c04BatchOps, sitesOf] at hs
+  | cons b bs ih =>
+    intro s hs
+    simp only [c04BatchOps, List.map_cons, sitesOf, sitesOfForm, FStmt.site, List.cons_append, List.nil_append,
+      List.mem_cons] at hs
+    rcases hs with h | h
+    · exact h
+    · exact ih s (by simpa [c04BatchOps] using h)
+
+/-- NESTED LOCALITY of a multi-batch CreateInBatches issued inside a transaction (default transactions on, more rows than the
+    batch size): when it fails — in whichever batch — the transaction's working store is exactly the one at its entry, the
+    save-point stack is the entry stack plus its own save point, nothing reached the committed store: the enclosing function
+    may swallow the error and commit, none of the batches is durable. -/
+theorem C04_batches_nested_local (sel : Nat → PoolSel) (o : Oracle) (h : Handle) (he : h.err = []) (db : DB) (v : Store)
+    (S : List (SpName × Store)) (ht : db.tx = some { cur := v, saves := S })
+    (len bs site : Nat) (batches : List (List Nat)) (hw : c04CibWraps false len bs = true) (hsel : sel site = .stmt)
+    (hsp : o db.calls = false) (hrf : db.rbFaultable = false)
+    (hr : (c04CreateInBatchesTx sel o h false len bs site batches db).2 ≠ .ok) :
+    (c04CreateInBatchesTx sel o h false len bs site batches db).1.tx =
+        some { cur := v, saves := (SpName.auto db.calls, v) :: S } ∧
+    (c04CreateInBatchesTx sel o h false len bs site batches db).1.committed = db.committed := by
+  have hsel' : ∀ s ∈ sitesOf (c04BatchOps site batches), sel s = .stmt := fun s hs => by
+    rw [c04_sitesOf_batchOps site batches s hs]; exact hsel
+  unfold c04CreateInBatchesTx at hr ⊢
+  rw [if_pos hw] at hr ⊢
+  exact C04_form_nested_local sel o h he db v S ht (c04BatchOps site batches) .retNil 0 hsel' hsp hrf hr
+
+/-- kernel-checked, whole programs: `db.Transaction(func(tx){ Create(50); _ = tx.CreateInBatches([100 101 | 102 1], 2);
+    Create(60); return nil })` with row 1 present. With the wrapper the regenerated decision prescribes the failed compound leaves
+    nothing and the rest is committed; with its batches sent directly through the handle (what a tree that skips the wrapper
+    "because the caller's transaction covers it" does) the first batch becomes durable. -/
+theorem C04_batches_in_block_example :
+    (runFProg (fun _ => PoolSel.stmt) { prep := false, dis := false, skip := false } (fun _ => false) (.blk .retNil 7)
+        [.ops [{ stmts := [.exec [.ins 50] 0], must := true }],
+         .nested (c04BatchOps 0 [[100, 101], [102, 1]]) .retNil 0,
+         .ops [{ stmts := [.exec [.ins 60] 0], must := true }]] { committed := [1] }).1.committed = [1, 50, 60] ∧
+    (runFProg (fun _ => PoolSel.stmt) { prep := false, dis := false, skip := false } (fun _ => false) (.blk .retNil 7)
+        [.ops [{ stmts := [.exec [.ins 50] 0], must := true }],
+         .ops [{ stmts := [.exec [.ins 100, .ins 101] 0], must := false }, { stmts := [.exec [.ins 102, .ins 1] 0], must := false }],
+         .ops [{ stmts := [.exec [.ins 60] 0], must := true }]] { committed := [1] }).1.committed = [1, 50, 60, 100, 101] ∧
+    c04CibWraps false 4 2 = true ∧ c04CibWraps false 2 2 = false ∧ c04CibWraps true 4 2 = false := by
   decide +kernel
 
 end Gorm
